@@ -151,7 +151,10 @@ class Compiler:
 
         # Subquery.
         if isinstance(node, ast.Select):
-            self.table = SubqueryTable(self._compile(node))
+            subquery = self._compile(node)
+            if not isinstance(subquery, EvalQuery):
+                raise CompilationError('PIVOT BY is not supported in a subquery', node)
+            self.table = SubqueryTable(subquery)
             return None
 
         # Table reference.
@@ -566,6 +569,8 @@ class Compiler:
         left = self._compile(node.left)
         right = self._compile(node.right)
 
+        if isinstance(right, EvalPivot):
+            raise CompilationError('PIVOT BY is not supported in a subquery', node.right)
         if isinstance(right, EvalQuery):
             if len(right.columns) != 1:
                 raise CompilationError('subquery has too many columns', node.right)
